@@ -356,14 +356,23 @@ func (p *Prog) errorDiscipline(c *Ctx, scope []*ssa.Function, fallback map[strin
 				continue
 			}
 			callee := cv.Call.StaticCallee()
-			if callee == nil || !inModule(callee) {
+			calleeLabel := ""
+			if callee != nil && inModule(callee) {
+				calleeLabel = shortName(callee)
+			} else if callee == nil && !cv.Call.IsInvoke() {
+				// a callback handed in by the caller (ForEach's fn): its error is the walk's error
+				if prm, isPrm := cv.Call.Value.(*ssa.Parameter); isPrm {
+					calleeLabel = "callback " + prm.Name()
+				}
+			}
+			if calleeLabel == "" {
 				continue
 			}
 			vals, has := errorResultOf(site)
 			if !has {
 				continue
 			}
-			pair := shortName(rootFunc(fn)) + " ← " + shortName(callee)
+			pair := shortName(rootFunc(fn)) + " ← " + calleeLabel
 			n[pair]++
 			key := fmt.Sprintf("%s#%d", pair, n[pair])
 			if why, ok := fallback[pair]; ok {
@@ -375,7 +384,7 @@ func (p *Prog) errorDiscipline(c *Ctx, scope []*ssa.Function, fallback map[strin
 				continue
 			}
 			if ok, why := errorPropagated(site); !ok {
-				c.fail(key, p.instrPos(site), why+": the failure of "+shortName(callee)+" is lost and the render goes on (or reports success)")
+				c.fail(key, p.instrPos(site), why+": the failure of "+calleeLabel+" is lost and the render goes on (or reports success)")
 				continue
 			}
 			bad := ""
@@ -404,7 +413,7 @@ func (p *Prog) errorDiscipline(c *Ctx, scope []*ssa.Function, fallback map[strin
 				}
 			}
 			if bad != "" {
-				c.fail(key, p.instrPos(site), "after "+shortName(callee)+" failed, "+bad)
+				c.fail(key, p.instrPos(site), "after "+calleeLabel+" failed, "+bad)
 			} else {
 				c.ok(key, p.instrPos(site), "the error reaches the return; every way from the failure edge returns a non-nil error")
 			}
